@@ -505,20 +505,40 @@ def idl_type_text(t):
     raise ValueError(t)
 
 
+def _comment_lines(cs):
+    return ["# " + c if c else "#" for c in cs]
+
+
+def _members_text(items):
+    """`(a: int, b: string)`; one member per line, each preceded by its comments, when any member has
+    comments. items: [(text, comments)]."""
+    if not any(c for _, c in items):
+        return "(" + ", ".join(t for t, _ in items) + ")"
+    L = ["("]
+    for k, (t, c) in enumerate(items):
+        L += _comment_lines(c)
+        L.append(t + ("," if k + 1 < len(items) else ""))
+    L.append(")")
+    return "\n".join(L)
+
+
 def idl_text(i):
-    L = ["interface " + i["name"], ""]
+    L = _comment_lines(i.get("comments") or []) + ["interface " + i["name"], ""]
     for c in i["types"]:
+        L += _comment_lines(c.get("comments") or [])
         if c["kind"] == "object":
-            L.append("type %s (%s)" % (c["name"], ", ".join("%s: %s" % (n, idl_type_text(t)) for n, t, _ in c["fields"])))
+            L.append("type %s %s" % (c["name"], _members_text([("%s: %s" % (n, idl_type_text(t)), cs) for n, t, cs in c["fields"]])))
         else:
-            L.append("type %s (%s)" % (c["name"], ", ".join(n for n, _ in c["variants"])))
+            L.append("type %s %s" % (c["name"], _members_text([(n, cs) for n, cs in c["variants"]])))
         L.append("")
     for m in i["methods"]:
-        L.append("method %s(%s) -> (%s)" % (
-            m["name"], ", ".join("%s: %s" % (n, idl_type_text(t)) for n, t, _ in m["inputs"]),
-            ", ".join("%s: %s" % (n, idl_type_text(t)) for n, t, _ in m["outputs"])))
+        L += _comment_lines(m.get("comments") or [])
+        L.append("method %s%s -> %s" % (
+            m["name"], _members_text([("%s: %s" % (n, idl_type_text(t)), cs) for n, t, cs in m["inputs"]]),
+            _members_text([("%s: %s" % (n, idl_type_text(t)), cs) for n, t, cs in m["outputs"]])))
         L.append("")
     for e in i["errors"]:
-        L.append("error %s (%s)" % (e["name"], ", ".join("%s: %s" % (n, idl_type_text(t)) for n, t, _ in e["fields"])))
+        L += _comment_lines(e.get("comments") or [])
+        L.append("error %s %s" % (e["name"], _members_text([("%s: %s" % (n, idl_type_text(t)), cs) for n, t, cs in e["fields"]])))
         L.append("")
     return "\n".join(L)
